@@ -222,6 +222,23 @@ SAN_ENV = {"ASAN_OPTIONS": "detect_stack_use_after_return=1:detect_leaks=1:abort
            "UBSAN_OPTIONS": "print_stacktrace=1:halt_on_error=1"}
 
 
+_HW = []
+_HW_LOCK = __import__("threading").Lock()
+
+
+def hw_threads():
+    """std::thread::hardware_concurrency() as the library sees it (default thread count of TbfBlockSizeFinder)"""
+    with _HW_LOCK:
+        if not _HW:
+            with Lock("harness-hc"):
+                path, log = build_harness("h_hc", ["h_hc.cpp"], ("-pthread",))
+            if path is None:
+                raise RuntimeError("cannot build harness/h_hc.cpp: " + log[-500:])
+            rc, out, err = sh([path], timeout=60)
+            _HW.append(max(1, int(out.strip() or 1)))
+    return _HW[0]
+
+
 def run_harness(binary, text, timeout=600, env=None):
     e = dict(SAN_ENV)
     if env:
